@@ -10,6 +10,7 @@ PROFILES = [
     ("deterministic, filtered-and-unfiltered-choice", {**DET, "p_r": 1.0, "p_b": 1.0}),
     ("deterministic, random", DET),
     ("deterministic, three-label restricted choice", {**DET, "p_r": 1.0, "sizes": {"a": 3, "r": 3}, "p_b": 0.5, "all_admitted": True}),
+    ("deterministic, exact ties between the labels of the restricted choice", {**DET, "p_r": 1.0, "p_a_tie": 1.0, "p_state_only_filter": 0.0, "T": [1, 2]}),
     ("deterministic, period-varying-space", {**DET, "p_r": 1.0, "p_per_filter": 1.0, "T": [2, 3]}),
     ("deterministic, discrete-only", {**DET, "p_w": 0.0, "p_z": 0.0, "p_h": 1.0, "p_r": 0.7, "T": [2, 3]}),
     ("stochastic (period-0 decision and value)", {"p_h": 1.0, "p_h_stoch": 1.0, "T": [2, 3]}),
@@ -24,7 +25,7 @@ def transforms(rng, n):
     subset = sorted(rng.sample(range(n), k))
     rng.shuffle(subset)
     dup = [rng.randrange(n) for _ in range(n + 2)]
-    return [("permuted", perm), ("subset", subset), ("duplicated", dup), ("key-order", list(range(n)))]
+    return [("permuted", perm), ("subset", subset), ("subset", [rng.randrange(n)]), ("duplicated", dup), ("key-order", list(range(n)))]
 
 
 def make_specs(ctx: Ctx, n):
